@@ -1,11 +1,738 @@
-/- Hand-written executable model (tie B): CovState.  Core Lean only — no Mathlib import in this file. -/
+/- Hand-written executable model (tie B): CovState — the parameter state machine of `CovModel`
+   (covmodel/base.py setters, covmodel/tools.py set_len_anis / set_model_angles / set_dim /
+   set_arg_bounds / check_arg_bounds / default_arg_from_bounds, tools/geometric.py set_anis /
+   set_angles / no_of_angles, tpl_models.py var_factor, and the class tables of models.py /
+   tpl_models.py).  Core Lean only — no Mathlib import in this file.
+
+   The model mirrors what the code DOES, including "store, then check, then raise" (D13) and bounds of
+   dimension-dependent optional arguments that are fixed at construction (D8).
+   It only needs arithmetic and comparisons, so it runs on `Rat` in the driver (exact) and is reasoned
+   about over ordered fields in `GSV/Props/C14.lean`. -/
 import GSV.Proto
-open Lean GSV GSV.Proto GSV.Transc
+open Lean GSV GSV.Proto
 namespace GSV.Model.CovState
+
+/-- the one non-algebraic operation (`**` with a float exponent in `TPLCovModel.var_factor`) -/
+class HasRPow (α : Type) where
+  rpow : α → α → α
+
+/-- canonical error kinds (every one is a `ValueError` in Python except `unmodelled`, which marks inputs
+    outside the modelled domain: numpy inf/nan arithmetic, unknown names) -/
+inductive Err where
+  /-- `check_arg_bounds`: argument name and `error_case` 1..4 of `check_arg_in_bounds` -/
+  | bound (arg : String) (case : Nat)
+  /-- `set_len_anis`: "anisotropy-ratios needs to be > 0" -/
+  | anisNonPos
+  /-- `set_dim`: "Only dimensions of d >= 1 are supported." -/
+  | dimLt1
+  /-- `set_dim`: fixed dimension not compatible with a latlon model -/
+  | fixDimLatlon
+  /-- `check_bounds` failed -/
+  | badBounds (arg : String)
+  /-- `set_arg_bounds: unknown argument` -/
+  | unknownArg (arg : String)
+  | unmodelled (why : String)
+  deriving DecidableEq, Repr, Inhabited
+
+/-- an interval with optional infinite ends (`none` = ∓inf) and open/closed flags (`"oc"` etc.) -/
+structure Bnd (α : Type) where
+  lo : Option α
+  hi : Option α
+  loC : Bool
+  hiC : Bool
+  deriving DecidableEq, Repr, Inhabited
+
+/-- bounds as a user passes them: `[a, b]` (typ = "") or `[a, b, typ]` -/
+structure RawBnd (α : Type) where
+  lo : Option α
+  hi : Option α
+  typ : String
+  deriving DecidableEq, Repr
+
+/-- an optional argument: name, value, bounds (dict order of `default_opt_arg_bounds`) -/
+structure OptArg (α : Type) where
+  name : String
+  val : α
+  bnd : Bnd α
+  deriving DecidableEq, Repr
+
+inductive WarnKind where
+  | none
+  /-- Stable / TPLStable `check_opt_arg`: alpha < 0.3 -/
+  | alphaSmall
+  /-- JBessel `check_opt_arg`: |nu - dim/2 + 1| < 0.01 -/
+  | nuNearBound
+  deriving DecidableEq, Repr
+
+inductive IntKind where
+  /-- `calc_integral_scale = len_rescaled` (Exponential) -/
+  | lenRescaled
+  /-- numerical or transcendental integral scale: not modelled -/
+  | unmodelled
+  deriving DecidableEq, Repr
+
+/-- what a concrete `CovModel` subclass contributes to the parameter state machine -/
+structure ClassSpec (α : Type) where
+  name : String
+  /-- `default_opt_arg()` and `default_opt_arg_bounds()` at model dimension `d` -/
+  opts : Nat → List (OptArg α)
+  checkDim : Nat → Bool
+  fixDim : Option Nat
+  /-- `TPLCovModel.var_factor` -/
+  tpl : Bool
+  /-- `default_rescale()`; `none` when it is irrational (Gaussian) -/
+  defaultRescale : Option α
+  intKind : IntKind
+  warnKind : WarnKind
+
+/-- public parameter state of a constructed `CovModel` -/
+structure State (α : Type) where
+  dim : Nat
+  latlon : Bool
+  temporal : Bool
+  varRaw : α
+  lenScale : α
+  anis : List α
+  angles : List α
+  nugget : α
+  rescale : α
+  opt : List (OptArg α)
+  varB : Bnd α
+  lenB : Bnd α
+  nugB : Bnd α
+  anisB : Bnd α
+  deriving DecidableEq, Repr
+
+/-- constructor arguments -/
+structure Cfg (α : Type) where
+  dim : Int
+  spatialDim : Option Int
+  latlon : Bool
+  temporal : Bool
+  var : α
+  varRaw : Option α
+  lenScale : List α
+  anis : List α
+  angles : List α
+  nugget : α
+  rescale : Option α
+  opt : List (String × α)
+  integralScale : Option (List α)
+  deriving Repr
+
+/-- setter operations on a constructed model (scalar forms are one-element lists) -/
+inductive Op (α : Type) where
+  | setDim (d : Int)
+  | setVar (v : α)
+  | setVarRaw (v : α)
+  | setNugget (v : α)
+  | setLenScale (vs : List α)
+  | setAnis (vs : List α)
+  | setAngles (vs : List α)
+  | setRescale (v : Option α)
+  | setOpt (name : String) (v : α)
+  | setIntegralScale (vs : List α)
+  /-- `model.set_arg_bounds(check_args, **{arg: bounds, ...})` -/
+  | setArgBounds (check : Bool) (bs : List (String × RawBnd α))
+  /-- `model.var_bounds = b` etc. (no argument check) -/
+  | setBoundsProp (arg : String) (b : RawBnd α)
+  deriving Repr
+
+/-- result of an operation: the state afterwards (also when it raised!), the error, whether an
+    `AttributeWarning` was issued -/
+structure Res (α : Type) where
+  st : State α
+  err : Option Err
+  warn : Bool
+
+section defs
+variable {α : Type} [Arith α] [DecidableLT α] [DecidableLE α] [DecidableEq α] [HasRPow α]
+
+def zero : α := ((0 : Nat) : α)
+def one : α := ((1 : Nat) : α)
+def two : α := ((2 : Nat) : α)
+
+def absA (x : α) : α := if x < (zero : α) then -x else x
+
+/-- `no_of_angles` -/
+def noOfAngles (d : Nat) : Nat := d * (d - 1) / 2
+
+/-- `set_anis`: keep the first `d-1` ratios, fill up IN FRONT with ones -/
+def setAnisL (d : Nat) (anis : List α) : List α :=
+  List.replicate (d - 1 - (anis.take (d - 1)).length) (one : α) ++ anis.take (d - 1)
+
+/-- `set_angles`: keep the first `no_of_angles(d)` angles, fill up at the END with zeros -/
+def setAnglesL (d : Nat) (ang : List α) : List α :=
+  ang.take (noOfAngles d) ++ List.replicate (noOfAngles d - (ang.take (noOfAngles d)).length) (zero : α)
+
+/-- `out_anis[:2] = 1.0` -/
+def isoFirst2 (a : List α) : List α :=
+  List.replicate (min 2 a.length) (one : α) ++ a.drop 2
+
+/-- the common tail of `set_len_anis`: sanity check, lat-lon override -/
+def finishAnis (l : α) (a : List α) (latlon : Bool) : Except Err (α × List α) :=
+  if a.all (fun x => decide ((zero : α) < x)) then
+    .ok (l, if latlon then isoFirst2 a else a)
+  else .error .anisNonPos
+
+/-- `set_len_anis(dim, len_scale, anis, latlon)` -/
+def setLenAnis (d : Nat) (ls anis : List α) (latlon : Bool) : Except Err (α × List α) :=
+  match ls.take d with
+  | [] => .error (.unmodelled "empty len_scale")
+  | [l] => finishAnis l (setAnisL d anis) latlon
+  | l :: l2 :: rest =>
+    if l = (zero : α) then .error (.unmodelled "main length scale 0 in a list") else
+    -- np.pad(..., "edge"), then ratios to the first entry
+    let tail := (l2 :: rest) ++ List.replicate (d - 1 - (l2 :: rest).length) ((l2 :: rest).getLast (by simp))
+    finishAnis l (tail.map (fun x => x / l)) latlon
+
+/-- `set_model_angles(dim, angles, latlon, temporal)` -/
+def setModelAngles (d : Nat) (ang : List α) (latlon temporal : Bool) : List α :=
+  if latlon then List.replicate (noOfAngles d) (zero : α)
+  else if temporal then
+    (setAnglesL d ang).take (noOfAngles (d - 1))
+      ++ List.replicate ((setAnglesL d ang).length - noOfAngles (d - 1)) (zero : α)
+  else setAnglesL d ang
+
+/-- `check_arg_in_bounds`: the `error_case` (0 = inside) -/
+def errorCase (b : Bnd α) (vals : List α) : Nat :=
+  let c : Nat := match b.lo with
+    | none => 0
+    | some l =>
+      if b.loC then (if vals.any (fun v => decide (v < l)) then 1 else 0)
+      else (if vals.any (fun v => decide (v ≤ l)) then 2 else 0)
+  match b.hi with
+  | none => c
+  | some h =>
+    if b.hiC then (if vals.any (fun v => decide (h < v)) then 3 else c)
+    else (if vals.any (fun v => decide (h ≤ v)) then 4 else c)
+
+/-- `check_bounds` and conversion to the stored form -/
+def RawBnd.toBnd? (r : RawBnd α) : Option (Bnd α) :=
+  let okOrder : Bool := match r.lo, r.hi with
+    | some l, some h => decide (l < h)
+    | _, _ => true
+  if !okOrder then none else
+  match r.typ with
+  | "" => some ⟨r.lo, r.hi, true, true⟩
+  | "cc" => some ⟨r.lo, r.hi, true, true⟩
+  | "co" => some ⟨r.lo, r.hi, true, false⟩
+  | "oc" => some ⟨r.lo, r.hi, false, true⟩
+  | "oo" => some ⟨r.lo, r.hi, false, false⟩
+  | _ => none
+
+/-- `default_arg_from_bounds` -/
+def defaultFromBounds (b : Bnd α) : α :=
+  match b.lo, b.hi with
+  | some l, some h => (l + h) / (two : α)
+  | some l, none => l + (one : α)
+  | none, some h => h - (one : α)
+  | none, none => (zero : α)
+
+def optGet (s : State α) (n : String) : α :=
+  match s.opt.find? (fun o => o.name == n) with
+  | some o => o.val
+  | none => (zero : α)
+
+/-- `var_factor()` -/
+def varFactor (sp : ClassSpec α) (s : State α) : α :=
+  if sp.tpl then
+    let h := optGet s "hurst"
+    let low := optGet s "len_low"
+    (HasRPow.rpow ((low + s.lenScale) / s.rescale) ((two : α) * h)
+      - HasRPow.rpow (low / s.rescale) ((two : α) * h)) / ((two : α) * h)
+  else (one : α)
+
+/-- the `var` property -/
+def var (sp : ClassSpec α) (s : State α) : α := s.varRaw * varFactor sp s
+
+/-- `sill` -/
+def sill (sp : ClassSpec α) (s : State α) : α := var sp s + s.nugget
+
+/-- `len_scale_vec` -/
+def lenScaleVec (s : State α) : List α := s.lenScale :: s.anis.map (fun a => s.lenScale * a)
+
+def tNat (temporal : Bool) : Nat := if temporal then 1 else 0
+
+/-- `field_dim` -/
+def fieldDim (s : State α) : Nat := if s.latlon then 2 + tNat s.temporal else s.dim
+
+/-- `spatial_dim` -/
+def spatialDim (s : State α) : Nat := if s.latlon then 2 else s.dim - tNat s.temporal
+
+/-- `arg_bounds` in dict order with the values `check_arg_bounds` looks at -/
+def argList (sp : ClassSpec α) (s : State α) : List (String × Bnd α × List α) :=
+  [("var", s.varB, [var sp s]), ("len_scale", s.lenB, [s.lenScale]),
+   ("nugget", s.nugB, [s.nugget]), ("anis", s.anisB, s.anis)]
+  ++ s.opt.map (fun o => (o.name, o.bnd, [o.val]))
+
+/-- `check_arg_bounds`: the first argument (dict order) outside its bounds raises -/
+def checkArgBounds (sp : ClassSpec α) (s : State α) : Option Err :=
+  (argList sp s).findSome? fun e =>
+    if errorCase e.2.1 e.2.2 = 0 then none else some (Err.bound e.1 (errorCase e.2.1 e.2.2))
+
+/-- end of every checking setter: the new state is ALREADY stored when the check raises (D13) -/
+def chk (sp : ClassSpec α) (s : State α) (w : Bool := false) : Res α := ⟨s, checkArgBounds sp s, w⟩
+
+def doSetLenScale (sp : ClassSpec α) (s : State α) (ls : List α) : Res α :=
+  match setLenAnis s.dim ls s.anis s.latlon with
+  | .error e => ⟨s, some e, false⟩
+  | .ok (l, a) => chk sp { s with lenScale := l, anis := a }
+
+def doSetAnis (sp : ClassSpec α) (s : State α) (vs : List α) : Res α :=
+  match setLenAnis s.dim [s.lenScale] vs s.latlon with
+  | .error e => ⟨s, some e, false⟩
+  | .ok (l, a) => chk sp { s with lenScale := l, anis := a }
+
+def doSetVar (sp : ClassSpec α) (s : State α) (v : α) : Res α :=
+  if varFactor sp s = (zero : α) then ⟨s, some (.unmodelled "var_factor 0"), false⟩
+  else chk sp { s with varRaw := v / varFactor sp s }
+
+def hasOpt (s : State α) (n : String) : Bool := s.opt.any (fun o => o.name == n)
+
+def doSetOpt (sp : ClassSpec α) (s : State α) (n : String) (v : α) : Res α :=
+  if !hasOpt s n then ⟨s, some (.unmodelled "unknown optional argument"), false⟩
+  else if sp.tpl && n == "hurst" && decide (v = (zero : α)) then ⟨s, some (.unmodelled "hurst 0"), false⟩
+  else chk sp { s with opt := s.opt.map (fun o => if o.name == n then { o with val := v } else o) }
+
+def doSetRescale (sp : ClassSpec α) (s : State α) (v : Option α) : Res α :=
+  match (match v with | some x => some x | none => sp.defaultRescale) with
+  | none => ⟨s, some (.unmodelled "irrational default rescale"), false⟩
+  | some x =>
+    if absA x = (zero : α) then ⟨s, some (.unmodelled "rescale 0"), false⟩
+    else ⟨{ s with rescale := absA x }, none, false⟩   -- no bounds check in the rescale setter
+
+/-- the dimension rule of `set_dim`: fixed dimension, lat-lon forcing, `d >= 1`, `check_dim` warning -/
+def dimRule (sp : ClassSpec α) (latlon temporal : Bool) (d : Int) : Except Err (Nat × Bool) :=
+  let fixed : Bool := match sp.fixDim with
+    | some f => decide ((f : Int) ≠ d)
+    | none => false
+  let d1 : Int := match sp.fixDim with
+    | some f => if (f : Int) ≠ d then (f : Int) else d
+    | none => d
+  if fixed && latlon && decide (d1 ≠ ((3 + tNat temporal : Nat) : Int)) then .error .fixDimLatlon else
+  let d2 : Int := if latlon then ((3 + tNat temporal : Nat) : Int) else d1
+  if d2 < 1 then .error .dimLt1 else
+  .ok (d2.toNat, fixed || !sp.checkDim d2.toNat)
+
+/-- `set_dim` on a constructed model -/
+def doSetDim (sp : ClassSpec α) (s : State α) (d : Int) : Res α :=
+  match dimRule sp s.latlon s.temporal d with
+  | .error e => ⟨s, some e, decide (e = .fixDimLatlon)⟩   -- the fixed-dimension warning precedes that error
+  | .ok (n, w) =>
+    -- `_dim` is assigned first; `set_len_anis` is called WITHOUT the latlon flag here
+    match setLenAnis n [s.lenScale] s.anis false with
+    | .error e => ⟨{ s with dim := n }, some e, w⟩
+    | .ok (l, a) =>
+      chk sp { s with dim := n, lenScale := l, anis := a,
+                      angles := setModelAngles n s.angles s.latlon s.temporal } w
+
+/-- the `integral_scale` setter (for `calc_integral_scale = len_rescaled`) -/
+def doSetIntegralScale (sp : ClassSpec α) (s : State α) (vs : List α) : Res α :=
+  match sp.intKind with
+  | .unmodelled => ⟨s, some (.unmodelled "integral scale of this class"), false⟩
+  | .lenRescaled =>
+    let r1 := doSetLenScale sp s vs
+    if r1.err.isSome then r1 else
+    let v := r1.st.lenScale
+    let r2 := doSetLenScale sp r1.st [(one : α)]
+    if r2.err.isSome then r2 else
+    let intTmp := r2.st.lenScale / r2.st.rescale
+    if intTmp = (zero : α) then ⟨r2.st, some (.unmodelled "integral scale 0"), false⟩ else
+    doSetLenScale sp r2.st [v / intTmp]
+
+def getBnd (s : State α) (arg : String) : Option (Bnd α) :=
+  match arg with
+  | "var" => some s.varB
+  | "len_scale" => some s.lenB
+  | "nugget" => some s.nugB
+  | "anis" => some s.anisB
+  | _ => (s.opt.find? (fun o => o.name == arg)).map (·.bnd)
+
+def getVals (sp : ClassSpec α) (s : State α) (arg : String) : List α :=
+  match arg with
+  | "var" => [var sp s]
+  | "len_scale" => [s.lenScale]
+  | "nugget" => [s.nugget]
+  | "anis" => s.anis
+  | _ => [optGet s arg]
+
+/-- store bounds for a non-`var` argument (`none`: unknown argument) -/
+def storeBnd (s : State α) (arg : String) (b : Bnd α) : Option (State α) :=
+  if hasOpt s arg then
+    some { s with opt := s.opt.map (fun o => if o.name == arg then { o with bnd := b } else o) }
+  else match arg with
+    | "len_scale" => some { s with lenB := b }
+    | "nugget" => some { s with nugB := b }
+    | "anis" => some { s with anisB := b }
+    | _ => none
+
+/-- `setattr(model, arg, default)` inside `set_arg_bounds` -/
+def assignDefault (sp : ClassSpec α) (s : State α) (arg : String) (b : Bnd α) : Res α :=
+  match arg with
+  | "var" => doSetVar sp s (defaultFromBounds b)
+  | "len_scale" => doSetLenScale sp s [defaultFromBounds b]
+  | "nugget" => chk sp { s with nugget := defaultFromBounds b }
+  | "anis" => doSetAnis sp s (List.replicate (s.dim - 1) (defaultFromBounds b))
+  | _ => doSetOpt sp s arg (defaultFromBounds b)
+
+/-- the loop of `set_arg_bounds`; `vb` collects the `var` bounds, which are applied last -/
+def argBoundsLoop (sp : ClassSpec α) (check : Bool) :
+    List (String × RawBnd α) → State α → Option (Bnd α) → Res α
+  | [], s, vb =>
+    match vb with
+    | none => ⟨s, none, false⟩
+    | some b =>
+      let s1 := { s with varB := b }
+      if check && errorCase b [var sp s1] != 0 then assignDefault sp s1 "var" b else ⟨s1, none, false⟩
+  | (arg, raw) :: rest, s, vb =>
+    match raw.toBnd? with
+    | none => ⟨s, some (.badBounds arg), false⟩
+    | some b =>
+      if !hasOpt s arg && arg == "var" then argBoundsLoop sp check rest s (some b) else
+      match storeBnd s arg b with
+      | none => ⟨s, some (.unknownArg arg), false⟩
+      | some s1 =>
+        if check && errorCase b (getVals sp s1 arg) != 0 then
+          let r := assignDefault sp s1 arg b
+          if r.err.isSome then r else argBoundsLoop sp check rest r.st vb
+        else argBoundsLoop sp check rest s1 vb
+
+def doSetBoundsProp (s : State α) (arg : String) (raw : RawBnd α) : Res α :=
+  match raw.toBnd? with
+  | none => ⟨s, some (.badBounds arg), false⟩
+  | some b =>
+    match arg with
+    | "var" => ⟨{ s with varB := b }, none, false⟩
+    | "len_scale" => ⟨{ s with lenB := b }, none, false⟩
+    | "nugget" => ⟨{ s with nugB := b }, none, false⟩
+    | "anis" => ⟨{ s with anisB := b }, none, false⟩
+    | _ => ⟨s, some (.unmodelled "no bounds property of that name"), false⟩
+
+/-- one setter operation on a constructed model -/
+def step (sp : ClassSpec α) (s : State α) : Op α → Res α
+  | .setDim d => doSetDim sp s d
+  | .setVar v => doSetVar sp s v
+  | .setVarRaw v => chk sp { s with varRaw := v }
+  | .setNugget v => chk sp { s with nugget := v }
+  | .setLenScale vs => doSetLenScale sp s vs
+  | .setAnis vs => doSetAnis sp s vs
+  | .setAngles vs => chk sp { s with angles := setModelAngles s.dim vs s.latlon s.temporal }
+  | .setRescale v => doSetRescale sp s v
+  | .setOpt n v => doSetOpt sp s n v
+  | .setIntegralScale vs => doSetIntegralScale sp s vs
+  | .setArgBounds check bs => argBoundsLoop sp check bs s none
+  | .setBoundsProp arg b => doSetBoundsProp s arg b
+
+/-- `default_arg_bounds()` -/
+def defVarB : Bnd α := ⟨some (zero : α), none, false, false⟩
+def defLenB : Bnd α := ⟨some (zero : α), none, false, false⟩
+def defNugB : Bnd α := ⟨some (zero : α), none, true, false⟩
+def defAnisB : Bnd α := ⟨some (zero : α), none, false, false⟩
+
+/-- `check_opt_arg` warnings of the shipped classes -/
+def optWarn (sp : ClassSpec α) (s : State α) : Bool :=
+  match sp.warnKind with
+  | .none => false
+  | .alphaSmall => decide (optGet s "alpha" < (0.3 : α))
+  | .nuNearBound =>
+    decide (absA (optGet s "nu" - ((s.dim : Nat) : α) / (two : α) + (one : α)) < (0.01 : α))
+
+/-- the `var` / `var_raw` step of `__init__` (done before and after `integral_scale`) -/
+def initVar (sp : ClassSpec α) (cfg : Cfg α) (s : State α) : Except Err (State α) :=
+  match cfg.varRaw with
+  | some r => .ok { s with varRaw := r }
+  | none =>
+    if varFactor sp s = (zero : α) then .error (.unmodelled "var_factor 0") else
+    match checkArgBounds sp { s with varRaw := cfg.var / varFactor sp s } with
+    | some e => .error e
+    | none => .ok { s with varRaw := cfg.var / varFactor sp s }
+
+/-- `CovModel.__init__` in its order of effects; returns the state and whether a warning was issued -/
+def construct (sp : ClassSpec α) (cfg : Cfg α) : Except Err (State α × Bool) :=
+  let d0 : Int := match cfg.spatialDim with
+    | some sd => sd + ((tNat cfg.temporal : Nat) : Int)
+    | none => cfg.dim
+  match dimRule sp cfg.latlon cfg.temporal d0 with
+  | .error e => .error e
+  | .ok (d, w1) =>
+    if cfg.opt.any (fun p => !(sp.opts d).any (fun o => o.name == p.1)) then
+      .error (.unmodelled "unknown optional argument") else
+    let opts := (sp.opts d).map fun o =>
+      match cfg.opt.find? (fun p => p.1 == o.name) with
+      | some p => { o with val := p.2 }
+      | none => o
+    match (match cfg.rescale with | some x => some x | none => sp.defaultRescale) with
+    | none => .error (.unmodelled "irrational default rescale")
+    | some r =>
+      if absA r = (zero : α) then .error (.unmodelled "rescale 0") else
+      match setLenAnis d cfg.lenScale cfg.anis cfg.latlon with
+      | .error e => .error e
+      | .ok (l, a) =>
+        let s0 : State α :=
+          { dim := d, latlon := cfg.latlon, temporal := cfg.temporal, varRaw := (zero : α),
+            lenScale := l, anis := a,
+            angles := setModelAngles d cfg.angles cfg.latlon cfg.temporal,
+            nugget := cfg.nugget, rescale := absA r, opt := opts,
+            varB := defVarB, lenB := defLenB, nugB := defNugB, anisB := defAnisB }
+        if sp.tpl && decide (optGet s0 "hurst" = (zero : α)) then .error (.unmodelled "hurst 0") else
+        match initVar sp cfg s0 with
+        | .error e => .error e
+        | .ok s1 =>
+          let r2 : Res α := match cfg.integralScale with
+            | none => ⟨s1, none, false⟩
+            | some v => doSetIntegralScale sp s1 v
+          match r2.err with
+          | some e => .error e
+          | none =>
+            match initVar sp cfg r2.st with
+            | .error e => .error e
+            | .ok s3 =>
+              match checkArgBounds sp s3 with
+              | some e => .error e
+              | none => .ok (s3, w1 || optWarn sp s3)
+
+/-- the constructor arguments one reads off a model ("the resulting values") -/
+def cfgOf (sp : ClassSpec α) (s : State α) : Cfg α :=
+  { dim := (s.dim : Int), spatialDim := none, latlon := s.latlon, temporal := s.temporal,
+    var := var sp s, varRaw := none, lenScale := [s.lenScale], anis := s.anis, angles := s.angles,
+    nugget := s.nugget, rescale := some s.rescale, opt := s.opt.map (fun o => (o.name, o.val)),
+    integralScale := none }
+
+/-- run a history; stops nowhere: like Python after `except ValueError: pass` -/
+def runOps (sp : ClassSpec α) (s : State α) : List (Op α) → State α
+  | [] => s
+  | op :: rest => runOps sp (step sp s op).st rest
+
+/-! ### class table (models.py / tpl_models.py) -/
+
+def bcc (l h : α) : Bnd α := ⟨some l, some h, true, true⟩
+def fifty : α := ((50 : Nat) : α)
+
+def plainSpec (name : String) (chk : Nat → Bool) (ik : IntKind := .unmodelled) : ClassSpec α :=
+  { name := name, opts := fun _ => [], checkDim := chk, fixDim := none, tpl := false,
+    defaultRescale := some (one : α), intKind := ik, warnKind := .none }
+
+def tplHurst (dflt : α) : OptArg α := ⟨"hurst", dflt, ⟨some (0.1 : α), some (one : α), false, false⟩⟩
+def tplLenLow : OptArg α := ⟨"len_low", (zero : α), ⟨some (zero : α), none, true, false⟩⟩
+def alphaArg : OptArg α := ⟨"alpha", (1.5 : α), ⟨some (zero : α), some (two : α), false, true⟩⟩
+
+def specOf (name : String) : Option (ClassSpec α) :=
+  match name with
+  | "Gaussian" => some { plainSpec "Gaussian" (fun _ => true) with defaultRescale := none }
+  | "Exponential" => some (plainSpec "Exponential" (fun _ => true) .lenRescaled)
+  | "Stable" => some { plainSpec "Stable" (fun _ => true) with
+      opts := fun _ => [alphaArg], warnKind := .alphaSmall }
+  | "Matern" => some { plainSpec "Matern" (fun _ => true) with
+      opts := fun _ => [⟨"nu", (one : α), bcc (0.2 : α) ((30 : Nat) : α)⟩] }
+  | "Integral" => some { plainSpec "Integral" (fun _ => true) with
+      opts := fun _ => [⟨"nu", (one : α), ⟨some (zero : α), some (fifty : α), false, true⟩⟩] }
+  | "Rational" => some { plainSpec "Rational" (fun _ => true) with
+      opts := fun _ => [⟨"alpha", (one : α), bcc (0.5 : α) (fifty : α)⟩] }
+  | "Cubic" => some (plainSpec "Cubic" (fun d => decide (d < 4)))
+  | "Linear" => some (plainSpec "Linear" (fun d => decide (d < 2)))
+  | "Circular" => some (plainSpec "Circular" (fun d => decide (d < 3)))
+  | "Spherical" => some (plainSpec "Spherical" (fun d => decide (d < 4)))
+  | "HyperSpherical" => some (plainSpec "HyperSpherical" (fun _ => true))
+  | "SuperSpherical" => some { plainSpec "SuperSpherical" (fun _ => true) with
+      opts := fun d => [⟨"nu", (((d : Nat) : α) - (one : α)) / (two : α),
+                          bcc ((((d : Nat) : α) - (one : α)) / (two : α)) (fifty : α)⟩] }
+  | "JBessel" => some { plainSpec "JBessel" (fun _ => true) with
+      opts := fun d => [⟨"nu", ((d : Nat) : α) / (two : α),
+                          bcc (((d : Nat) : α) / (two : α) - (one : α)) (fifty : α)⟩],
+      warnKind := .nuNearBound }
+  | "TPLGaussian" => some { plainSpec "TPLGaussian" (fun _ => true) with
+      opts := fun _ => [tplHurst (0.5 : α), tplLenLow], tpl := true }
+  | "TPLExponential" => some { plainSpec "TPLExponential" (fun _ => true) with
+      opts := fun _ => [tplHurst (0.25 : α), tplLenLow], tpl := true }
+  | "TPLStable" => some { plainSpec "TPLStable" (fun _ => true) with
+      opts := fun _ => [tplHurst (0.5 : α), alphaArg, tplLenLow], tpl := true, warnKind := .alphaSmall }
+  | "TPLSimple" => some { plainSpec "TPLSimple" (fun _ => true) with
+      opts := fun d => [⟨"nu", (((d : Nat) : α) + (one : α)) / (two : α),
+                          bcc ((((d : Nat) : α) + (one : α)) / (two : α)) (fifty : α)⟩] }
+  -- user-defined classes of the harness (CovModel is an extension point)
+  | "UserFix2" => some { plainSpec "UserFix2" (fun _ => true) .lenRescaled with fixDim := some 2 }
+  | "UserFix3" => some { plainSpec "UserFix3" (fun _ => true) .lenRescaled with fixDim := some 3 }
+  | _ => none
+
+end defs
+
+/-! ### `Rat` instance used by the driver -/
+
+instance instArithRatCovState : Arith Rat := {}
+
+/-- integer square root test for exact rational `x ** 0.5` -/
+def ratSqrt? (x : Rat) : Option Rat :=
+  if x < 0 then none else
+  let n := x.num.toNat
+  let d := x.den
+  if Nat.sqrt n * Nat.sqrt n == n && Nat.sqrt d * Nat.sqrt d == d then
+    some (mkRat (Nat.sqrt n : Int) (Nat.sqrt d)) else none
+
+/-- `x ** y` on rationals where it is rational: natural exponents and perfect-square roots; `0` marks
+    the unsupported cases (the harness never generates them) -/
+def ratPow (x y : Rat) : Rat :=
+  if y.den == 1 && decide (0 ≤ y.num) then x ^ y.num.toNat
+  else if y == (1 : Rat) / 2 then (ratSqrt? x).getD 0
+  else 0
+
+instance instHasRPowRat : HasRPow Rat := ⟨ratPow⟩
+
+/-! ### line protocol -/
+
+def optRat? (j : Json) (k : String) : Except String (Option Rat) :=
+  match j.getObjVal? k with
+  | .error _ => .ok none
+  | .ok Json.null => .ok none
+  | .ok v => do let r ← jsonToRat v; return some r
+
+def ratList (j : Json) (k : String) : Except String (List Rat) := do
+  let a ← getRats j k
+  return a.toList
+
+def optRatList? (j : Json) (k : String) : Except String (Option (List Rat)) :=
+  match j.getObjVal? k with
+  | .error _ => .ok none
+  | .ok Json.null => .ok none
+  | .ok v => do
+    let a ← v.getArr?
+    let l ← a.mapM jsonToRat
+    return some l.toList
+
+def getIntK (j : Json) (k : String) : Except String Int := do
+  let v ← j.getObjVal? k
+  v.getInt?
+
+def optInt? (j : Json) (k : String) : Except String (Option Int) :=
+  match j.getObjVal? k with
+  | .error _ => .ok none
+  | .ok Json.null => .ok none
+  | .ok v => do let r ← v.getInt?; return some r
+
+def parseRaw (v : Json) : Except String (RawBnd Rat) := do
+  let lo ← optRat? v "lo"
+  let hi ← optRat? v "hi"
+  let typ ← getStr v "typ"
+  return ⟨lo, hi, typ⟩
+
+def parseOptPairs (j : Json) (k : String) : Except String (List (String × Rat)) := do
+  let v ← j.getObjVal? k
+  let a ← v.getArr?
+  let l ← a.mapM fun e => do
+    let n ← getStr e "name"
+    let x ← getRat e "val"
+    return (n, x)
+  return l.toList
+
+def parseCfg (j : Json) : Except String (Cfg Rat) := do
+  let dim ← getIntK j "dim"
+  let sd ← optInt? j "spatial_dim"
+  let latlon ← getBool j "latlon"
+  let temporal ← getBool j "temporal"
+  let var ← getRat j "var"
+  let varRaw ← optRat? j "var_raw"
+  let ls ← ratList j "len_scale"
+  let anis ← ratList j "anis"
+  let angles ← ratList j "angles"
+  let nugget ← getRat j "nugget"
+  let rescale ← optRat? j "rescale"
+  let opt ← parseOptPairs j "opt"
+  let isc ← optRatList? j "integral_scale"
+  return { dim := dim, spatialDim := sd, latlon := latlon, temporal := temporal, var := var,
+           varRaw := varRaw, lenScale := ls, anis := anis, angles := angles, nugget := nugget,
+           rescale := rescale, opt := opt, integralScale := isc }
+
+def parseOp (j : Json) : Except String (Op Rat) := do
+  let k ← getStr j "k"
+  match k with
+  | "dim" => return .setDim (← getIntK j "d")
+  | "var" => return .setVar (← getRat j "v")
+  | "var_raw" => return .setVarRaw (← getRat j "v")
+  | "nugget" => return .setNugget (← getRat j "v")
+  | "len_scale" => return .setLenScale (← ratList j "vs")
+  | "anis" => return .setAnis (← ratList j "vs")
+  | "angles" => return .setAngles (← ratList j "vs")
+  | "rescale" => return .setRescale (← optRat? j "v")
+  | "opt" => return .setOpt (← getStr j "name") (← getRat j "v")
+  | "integral_scale" => return .setIntegralScale (← ratList j "vs")
+  | "arg_bounds" =>
+    let check ← getBool j "check"
+    let v ← j.getObjVal? "bs"
+    let a ← v.getArr?
+    let l ← a.mapM fun e => do
+      let n ← getStr e "arg"
+      let r ← parseRaw e
+      return (n, r)
+    return .setArgBounds check l.toList
+  | "bounds_prop" => return .setBoundsProp (← getStr j "arg") (← parseRaw j)
+  | _ => throw s!"unknown setter {k}"
+
+def errJson : Err → Json
+  | .bound a c => Json.mkObj [("e", "bound"), ("arg", Json.str a), ("case", Json.num (JsonNumber.fromNat c))]
+  | .anisNonPos => Json.mkObj [("e", "anis_nonpos")]
+  | .dimLt1 => Json.mkObj [("e", "dim_lt_1")]
+  | .fixDimLatlon => Json.mkObj [("e", "fixdim_latlon")]
+  | .badBounds a => Json.mkObj [("e", "bad_bounds"), ("arg", Json.str a)]
+  | .unknownArg a => Json.mkObj [("e", "unknown_arg"), ("arg", Json.str a)]
+  | .unmodelled w => Json.mkObj [("e", "unmodelled"), ("why", Json.str w)]
+
+def optRatJson : Option Rat → Json
+  | none => Json.null
+  | some x => rat x
+
+def bndJson (b : Bnd Rat) : Json :=
+  Json.arr #[optRatJson b.lo, optRatJson b.hi,
+    Json.str ((if b.loC then "c" else "o") ++ (if b.hiC then "c" else "o"))]
+
+def natJ (n : Nat) : Json := Json.num (JsonNumber.fromNat n)
+
+/-- is the state a fixed point of the constructor ("equals a model constructed directly with the
+    resulting values")?  0 = yes, 1 = constructor raises, 2 = differs -/
+def fixedPoint (sp : ClassSpec Rat) (s : State Rat) : Nat :=
+  match construct sp (cfgOf sp s) with
+  | .error _ => 1
+  | .ok (s', _) => if s' = s then 0 else 2
+
+def obsJson (sp : ClassSpec Rat) (s : State Rat) : Json :=
+  Json.mkObj [
+    ("dim", natJ s.dim), ("latlon", Json.bool s.latlon), ("temporal", Json.bool s.temporal),
+    ("var", rat (var sp s)), ("var_raw", rat s.varRaw), ("len_scale", rat s.lenScale),
+    ("anis", rl s.anis), ("angles", rl s.angles), ("nugget", rat s.nugget), ("rescale", rat s.rescale),
+    ("opt", Json.arr (s.opt.map fun o => Json.arr #[Json.str o.name, rat o.val, bndJson o.bnd]).toArray),
+    ("var_bounds", bndJson s.varB), ("len_scale_bounds", bndJson s.lenB),
+    ("nugget_bounds", bndJson s.nugB), ("anis_bounds", bndJson s.anisB),
+    ("sill", rat (sill sp s)), ("len_scale_vec", rl (lenScaleVec s)),
+    ("field_dim", natJ (fieldDim s)), ("spatial_dim", natJ (spatialDim s)),
+    ("in_bounds", Json.bool (checkArgBounds sp s).isNone),
+    ("fixed_point", natJ (fixedPoint sp s))]
+
+def resJson (sp : ClassSpec Rat) (r : Res Rat) : Json :=
+  Json.mkObj [("err", match r.err with | none => Json.null | some e => errJson e),
+              ("warn", Json.bool r.warn), ("obs", obsJson sp r.st)]
+
+/-- construct, then apply the setters one after the other (continuing after errors, like a Python
+    session that catches `ValueError`), reporting the observable state after every operation -/
+def runHistory (j : Json) : Except String Json := do
+  let cls ← getStr j "cls"
+  match (specOf cls : Option (ClassSpec Rat)) with
+  | none => throw s!"unknown class {cls}"
+  | some sp =>
+    let cfg ← parseCfg (← j.getObjVal? "cfg")
+    let opsJ ← (← j.getObjVal? "ops").getArr?
+    let ops ← opsJ.mapM parseOp
+    match construct sp cfg with
+    | .error e => return Json.mkObj [("construct", errJson e), ("steps", Json.arr #[])]
+    | .ok (s0, w0) =>
+      let (_, out) := ops.foldl (fun (acc : State Rat × Array Json) op =>
+        let r := step sp acc.1 op
+        (r.st, acc.2.push (resJson sp r))) (s0, #[])
+      return Json.mkObj [("construct", Json.null), ("warn", Json.bool w0), ("obs", obsJson sp s0),
+                         ("steps", Json.arr out)]
 
 /-- line-protocol operations of this model; `none` = not one of mine -/
 def ops (op : String) (j : Json) : Option (Except String Json) :=
   match op with
+  | "c14_history" => some (runHistory j)
   | _ => none
 
 end GSV.Model.CovState
